@@ -9,5 +9,6 @@ CONSTANTS
   FailKinds <- OneFail
   AnyOrder = FALSE
   Canon = TRUE
+  Elapse <- ElapseAll
 CONSTRAINT BootOnly
 INVARIANTS EmitBoot Refused RefusedExact StatedImpliesPanics
